@@ -63,7 +63,7 @@ def first(e, spelling):
 def seg_unit(v, seg, res, tier):
     from hl7apy.core import Segment
     from hl7apy.exceptions import ChildNotFound, ChildNotValid
-    if tables.segment_anomaly(v, seg) or seg == 'ANYHL7SEGMENT' or tables.row_anomalies(v, seg) or tables.has_gap(v, seg):
+    if tables.segment_anomaly(v, seg) or seg == 'ANYHL7SEGMENT' or tables.row_anomalies(v, seg):
         res.blocked['segment with anomalous rows (C02 findings)'] += 1
         return
     frows = [fr for i, fr in tables.field_rows(v, seg)]
